@@ -85,6 +85,27 @@ def _gen_chain(rng, tier):
     for _ in range(n): yield next(g)
 _sk = Stream('stack', 'h_layers', mode='modelstack', gen=_gen_stack, nontrivial=lambda c, o: _c07('nontrivial')(c, o), spec_mode='spec')
 _sk.env = {'TV_HINT_GATE': '1'}
+def _gen_wrapped(rng, tier):
+    # stacks with pass-through wrappers (Box, Some, vec![_], reload, and_then(Identity)), `None` layers and empty Vecs inside the
+    # and_then tree: their placeholder hints (`Some(OFF)` for a None layer) must not leak into the stack's hint
+    import importlib
+    g = importlib.import_module('checks.C09').gen_wrapped(rng, 'thorough')
+    def no_reload_around_filtered(case):
+        # documented limitation (reload.rs, module docs): a reload::Subscriber cannot be downcast through, so a per-layer-filtered
+        # layer wrapped in one is not recognised as such — "prefer wrapping the Filter": such stacks are not generated here
+        st, ops = case.split(' ;; ')
+        toks = [(':'.join(p for p in t.split(':')[:-1] if p != 'r') + ':' + t.split(':')[-1]).lstrip(':')
+                if (':' in t and t.split(':')[-1][:1] == 'F' and t.split(':')[-1][1:].isdigit()) else t for t in st.split()]
+        # F32 (confirmed, recorded in DESIGN.md 7 / 12.7, not modelled here): an `Option::None` layer inside an and_then tree makes the
+        # tree count as NOT per-layer-filtered, so a sibling filtered layer's hint caps the others.  Until the tree-hint model has
+        # None nodes, None layers are generated only in stacks without per-layer-filtered layers.
+        if any(t.split(':')[-1][:1] == 'F' and t.split(':')[-1][1:].isdigit() for t in toks):
+            toks = [t for t in toks if t not in ('none', 'empty')]
+        return ' '.join(toks) + ' ;; ' + ops
+    for _ in range(600 if tier == 'quick' else 15000): yield no_reload_around_filtered(next(g))
+_sw = Stream('stackwrapped', 'h_layers', mode='modelstack', gen=_gen_wrapped,
+             nontrivial=lambda c, o: (':' in c.split(' ;; ')[0] or 'none' in c or 'empty' in c) and any(len(t) > 2 for t in o.split()), spec_mode='spec')
+_sw.env = {'TV_HINT_GATE': '1'}
 _sc = Stream('stackchain', 'h_chain', mode='modelchain', gen=_gen_chain, nontrivial=lambda c, o: _c07('nontrivial')(c, o), spec_mode='spec')
 _sc.env = {'TV_HINT_GATE': '1'}
 
@@ -105,7 +126,7 @@ PROPERTY = {
     'namespace': 'C08',
     'units': [],
     'required_theorems': ['C08.interest_sound', 'C08.hint_sound', 'C08.stack_interest_sound', 'C08.stack_hint_sound'],
-    'streams': [_st, _sk, _sc],
+    'streams': [_st, _sk, _sc, _sw],
     'rule': 'random filter expressions (depth <= 4 quick / 6 thorough) over level thresholds, Targets strings, static closures with/without (honest) hints, context-dependent closures with/without hint and callsite closure, '
             'None/Some, and/or/not, reload and Box wrappers; each evaluated on 7 targets x 5 levels x span/event x 4 field sets in two contexts through the real Filtered layer; non-trivial = at least 2 operators/leaves and >=2 distinct interests. Streams stack / stackchain: the stack and history generators of C07 with the max-level-hint gate switched on in the front end; non-trivial as in C07',
     'trusted_base': ['hand-written model Core/FilterExpr.lean', 'executor h_filters (builds Box<dyn Filter> trees with the real FilterExt combinators)', 'hand-written models Core/Filtering.lean, Core/Reload.lean (stackInterest, stackHint)', 'executors h_layers, h_chain with TV_HINT_GATE'],
